@@ -72,7 +72,7 @@ Put(f, x, v) == [y \in DOMAIN f \cup {x} |-> IF y = x THEN v ELSE f[y]]
 ToSet(s) == {s[i] : i \in DOMAIN s}
 FlagS(p, cond, why, sig) == IF cond THEN {} ELSE {[p |-> p, at |-> l, trace |-> tid, why |-> why, sig |-> sig]}
 Flag(p, cond, why) == FlagS(p, cond, why, "")
-NoPol == [h |-> 0, mc |-> -1, max |-> 0]
+NoPol == [h |-> 0, mc |-> -1, max |-> 0, rounds |-> 0]
 DefaultCfg == [ample |-> FALSE, ref |-> FALSE, coll |-> FALSE, maxCost |-> 0, itemSize |-> 0,
                costFn |-> 0, hashOf |-> <<>>, confOf |-> <<>>, metrics |-> FALSE, cb |-> TRUE]
 
@@ -457,7 +457,7 @@ Step(e) ==
          /\ bad' = bad \cup Flag("C09", pendRej = {}, "an item turned away by the policy was not reported through OnReject")
          /\ pendRej' = {}
          /\ polCur' = [h |-> e.h, has |-> e.has, big |-> e.cost > e.max, fits |-> (~e.has /\ e.cost <= e.max /\ e.max - (e.used + e.cost) >= 0),
-                       lower |-> FALSE, inc |-> e.inc, max |-> e.max,
+                       lower |-> FALSE, inc |-> e.inc, max |-> e.max, rounds |-> 0,
                        \* MaxCost is read without the policy lock: the record is usable only if no UpdateMaxCost was in
                        \* progress when it was taken (harness counters sampled before the read)
                        mc |-> IF e.mcb = e.mce THEN e.mcb ELSE -1]
@@ -469,9 +469,18 @@ Step(e) ==
     [] e.ev = "PolRound" ->    \* white-box, under the policy lock: one sampling round
          LET ests == {e.sample[i][2] : i \in DOMAIN e.sample}
              mn == IF ests = {} THEN 1000000000 ELSE CHOOSE x \in ests : \A y \in ests : x <= y IN
-         /\ polCur' = IF polCur = NoPol THEN polCur ELSE [polCur EXCEPT !.lower = (e.inc < mn)]
+         /\ polCur' = IF polCur = NoPol THEN polCur ELSE [polCur EXCEPT !.lower = (e.inc < mn), !.rounds = @ + 1]
          /\ bad' = bad \cup Flag("C09", polCur = NoPol \/ polCur.h # e.h \/ ~polCur.lower,
                                  "eviction went on although the newcomer's estimate is lower than the least-frequent candidate's")
+                       \* sampled LFU: while room must be made, the candidates are (up to five of) the accounted keys;
+                       \* with at most five accounted keys every one of them is a candidate
+                       \cup Flag("C09", "pop" \notin DOMAIN e \/ Len(e.pop) = 0 \/ Len(e.sample) > 0,
+                                 "the newcomer was judged against an empty candidate sample although keys are accounted")
+                       \cup Flag("C09", "pop" \notin DOMAIN e \/ Len(e.pop) > 5 \/ polCur = NoPol \/ polCur.h # e.h \/ polCur.rounds # 0 \/
+                                       \A i \in DOMAIN e.pop : \E j \in DOMAIN e.sample : e.sample[j][1] = e.pop[i],
+                                 "an accounted key is missing from the candidate sample although at most five keys are accounted")
+                       \cup Flag("C09", "pop" \notin DOMAIN e \/ Len(e.pop) <= 5 \/ Len(e.sample) >= 5,
+                                 "fewer than five candidates were sampled although more than five keys are accounted")
                        \cup Flag("C09", polCur = NoPol \/ polCur.h # e.h \/ e.inc = polCur.inc,
                                  "the decision used an estimate of the newcomer that differs from its estimate at decision time")
                        \cup Flag("C09", e.inc < mn \/ e.minHits = mn, "the victim is not the least-frequently-accessed of the sampled candidates")
